@@ -217,6 +217,15 @@ AV Interp::fixfp(AV v, bool fp) {
   }
   if (!fp && v.k == AV::T && TT.t[v.t].op == TT.OP_CF) { AV r = piece(AV::Tm(v.t, v.bytes), 0, v.bytes); int64_t bits = TT.t[v.t].k; if (v.bytes == 4) { float f = (float)TT.cfval(v.t); uint32_t u; memcpy(&u, &f, 4); bits = (int32_t)u; } (void)r; return AV::Int(bits, v.bytes); }
   if (!fp && v.k == AV::T && TT.t[v.t].op == OPS.id("nanbits")) return AV::Int(TT.t[v.t].k, v.bytes);
+  if (v.k == AV::T && TT.t[v.t].op == TT.OP_SELECT && (v.bytes == 4 || v.bytes == 8)) {
+    // a choice between constants moved through a register of the other kind (float <-> integer bit pattern): reinterpret the leaves
+    const Term x = TT.t[v.t]; AV a = avOfTerm(x.a[1]), b = avOfTerm(x.a[2]);
+    auto leafOrSel = [&](const AV &q) { return q.k == AV::INT || (q.k == AV::T && (TT.t[q.t].op == TT.OP_CF || TT.t[q.t].op == TT.OP_SELECT)); };
+    if (leafOrSel(a) && leafOrSel(b)) {
+      a.bytes = v.bytes; b.bytes = v.bytes; AV fa = fixfp(a, fp), fb = fixfp(b, fp);
+      if (termOf(fa) != x.a[1] || termOf(fb) != x.a[2]) { AV r = select(avOfTerm(x.a[0]), fa, fb); r.fp = fp; return r; }
+    }
+  }
   v.fp = fp;
   return v;
 }
